@@ -29,7 +29,11 @@ NamesOK(e) ==
   /\ \A h \in DOMAIN e.tls : e.tls[h].cert = ExpectCert(e, h) /\ e.tls[h].ca = ExpectCert(e, h) /\ e.tls[h].verify = (ExpectCert(e, h) # "")
 \* C11: the effective configuration of every cluster is that of a fresh gateway given only the latest objects
 StaleVersion(e, c) == "StaleRequeue" \in Deviations /\ "fresh_versions" \in DOMAIN e /\ e.eff[c] \in Rng(e.fresh_versions[c]) /\ e.eff[c].names # e.fresh[c].names
-ReloadOK(e) == \A c \in DOMAIN e.eff : e.eff[c] = e.fresh[c] \/ StaleVersion(e, c)
+\* ... server names included: the name TABLE (what every host resolves to) is the fresh gateway's; a difference on host h is explained by the
+\* known deviation only when a cluster that is serving an earlier version of itself is involved on either side
+StaleName(e, h) == \E c \in DOMAIN e.eff : StaleVersion(e, c) /\ e.eff[c] # e.fresh[c] /\ (e.resolve[h] = T.base[c] \/ e.fresh_resolve[h] = T.base[c])
+ResolveOK(e) == \A h \in DOMAIN e.resolve : e.resolve[h] = e.fresh_resolve[h] \/ StaleName(e, h)
+ReloadOK(e) == (\A c \in DOMAIN e.eff : e.eff[c] = e.fresh[c] \/ StaleVersion(e, c)) /\ ResolveOK(e)
 
 \* C10 "at every moment": the name table after EVERY write of the controller (events "mid", between two observations of a settled history):
 \* every name resolves as it did at the observation before or as it does at the observation after - a name the cluster keeps is never
